@@ -22,3 +22,11 @@ Definition run_0204 (input impl : sx) : sx :=
   | None => v_malformed
   | Some c => verdict (rs_model c) (rs_impl c) (c02_resync_spec c) (SL [])
   end.
+
+(* 0205: a history of three synchronisations through the real Send/Receive with the real walks on
+   both sides (harness/c02e2e.go); specification oracle RecvG.c02_history_spec. *)
+Definition run_0205 (input impl : sx) : sx :=
+  match dec_hcase input impl with
+  | None => v_malformed
+  | Some c => verdict (h_model c) (h_impl c) (c02_history_spec c) (SL [])
+  end.
